@@ -1,0 +1,230 @@
+//! Verification hooks, compiled only with `--cfg xt_verif`.
+//!
+//! This module contains no translation logic. It provides thin public wrappers
+//! around crate-private items so that an external conformance harness can
+//! drive them directly, plus a thread-local event sink that instrumented code
+//! paths report to. Nothing here is compiled into normal builds of xt.
+
+#![allow(missing_docs, clippy::missing_errors_doc, clippy::must_use_candidate)]
+
+use std::cell::RefCell;
+use std::io::{self, BufRead, Read};
+
+use crate::input::{self, Input, Ref};
+use crate::Format;
+
+/// A single event reported by instrumented code.
+#[derive(Clone, Debug, PartialEq, Eq)]
+pub struct Event {
+	pub kind: &'static str,
+	pub a: i64,
+	pub b: i64,
+	pub c: i64,
+}
+
+thread_local! {
+	static SINK: RefCell<Option<Vec<Event>>> = const { RefCell::new(None) };
+}
+
+/// Starts (or restarts) event collection on the current thread.
+pub fn start_events() {
+	SINK.with(|s| *s.borrow_mut() = Some(vec![]));
+}
+
+/// Stops event collection and returns the collected events.
+pub fn take_events() -> Vec<Event> {
+	SINK.with(|s| s.borrow_mut().take().unwrap_or_default())
+}
+
+/// Returns and clears the events collected so far without stopping collection.
+pub fn drain_events() -> Vec<Event> {
+	SINK.with(|s| match s.borrow_mut().as_mut() {
+		Some(v) => std::mem::take(v),
+		None => vec![],
+	})
+}
+
+/// Reports an event to the sink, if collection is active.
+#[allow(clippy::cast_possible_truncation, clippy::cast_possible_wrap)]
+pub(crate) fn emit(kind: &'static str, a: u64, b: u64, c: u64) {
+	SINK.with(|s| {
+		if let Ok(mut s) = s.try_borrow_mut() {
+			if let Some(v) = s.as_mut() {
+				v.push(Event {
+					kind,
+					a: a as i64,
+					b: b as i64,
+					c: c as i64,
+				});
+			}
+		}
+	});
+}
+
+/// Runs format detection on a slice.
+pub fn detect_slice(input: &[u8]) -> io::Result<Option<Format>> {
+	crate::detect::detect_format(&mut input::Handle::from_slice(input))
+}
+
+/// Runs format detection on a reader.
+pub fn detect_reader<R: Read>(input: R) -> io::Result<Option<Format>> {
+	crate::detect::detect_format(&mut input::Handle::from_reader(input))
+}
+
+/// The observable projection of a reader-backed input handle.
+#[derive(Clone, Copy, Debug, PartialEq, Eq)]
+pub struct HandleState {
+	pub captured_len: usize,
+	pub cursor: usize,
+	pub source_eof: bool,
+}
+
+/// A driver for the crate-private rewindable input handle.
+pub struct HandleProbe<'i>(input::Handle<'i>);
+
+impl<'i> HandleProbe<'i> {
+	pub fn from_slice(b: &'i [u8]) -> Self {
+		Self(input::Handle::from_slice(b))
+	}
+
+	pub fn from_reader<R: Read + 'i>(r: R) -> Self {
+		Self(input::Handle::from_reader(r))
+	}
+
+	/// Borrows the handle (which rewinds it) and passes the reference to `f`.
+	pub fn with_borrow<T>(&mut self, f: impl FnOnce(&mut RefProbe<'i, '_>) -> T) -> T {
+		let mut probe = RefProbe(self.0.borrow_mut());
+		f(&mut probe)
+	}
+
+	/// Returns the projection of the handle, or `None` for slice handles.
+	pub fn project(&self) -> Option<HandleState> {
+		self.0.verif_project()
+	}
+
+	/// Takes ownership of the input the way streaming formats do.
+	pub fn into_input(self) -> InputProbe<'i> {
+		match Input::from(self.0) {
+			Input::Slice(b) => InputProbe::Slice(b.into_owned()),
+			Input::Reader(r) => InputProbe::Reader(r),
+		}
+	}
+
+	/// Takes ownership of the input the way slice-only formats do.
+	pub fn into_cow(self) -> io::Result<Vec<u8>> {
+		let cow: std::borrow::Cow<'i, [u8]> = self.0.try_into()?;
+		Ok(cow.into_owned())
+	}
+}
+
+/// A driver for a temporary reference to an input handle.
+pub struct RefProbe<'i, 'h>(Ref<'i, 'h>);
+
+impl RefProbe<'_, '_> {
+	/// Returns the full slice when the reference is slice-backed.
+	pub fn as_slice(&self) -> Option<&[u8]> {
+		match &self.0 {
+			Ref::Slice(b) => Some(b),
+			Ref::Reader(_) => None,
+		}
+	}
+
+	/// Performs one `read` call with a buffer of `n` bytes on a reader-backed
+	/// reference. Returns `None` for slice-backed references.
+	pub fn read(&mut self, n: usize) -> Option<io::Result<Vec<u8>>> {
+		match &mut self.0 {
+			Ref::Slice(_) => None,
+			Ref::Reader(r) => {
+				let mut buf = vec![0u8; n];
+				Some(r.read(&mut buf).map(|len| {
+					buf.truncate(len);
+					buf
+				}))
+			}
+		}
+	}
+
+	/// Requests a prefix with the given size hint.
+	pub fn prefix(&mut self, size_hint: usize) -> io::Result<Vec<u8>> {
+		self.0.prefix(size_hint).map(<[u8]>::to_vec)
+	}
+
+	/// Returns the projection of the underlying capture reader, if any.
+	pub fn project(&self) -> Option<HandleState> {
+		match &self.0 {
+			Ref::Slice(_) => None,
+			Ref::Reader(r) => Some(r.verif_project()),
+		}
+	}
+}
+
+/// Owned input obtained from a [`HandleProbe`].
+pub enum InputProbe<'i> {
+	Slice(Vec<u8>),
+	Reader(Box<dyn Read + 'i>),
+}
+
+/// Returns the name of the text encoding detected for a YAML stream prefix.
+pub fn yaml_detect_encoding(prefix: &[u8]) -> &'static str {
+	crate::yaml::verif_hooks::detect_encoding(prefix)
+}
+
+/// Creates a YAML re-encoder with a known source encoding name.
+pub fn yaml_encoder_new<'r, R: BufRead + 'r>(reader: R, encoding: &str) -> Box<dyn Read + 'r> {
+	crate::yaml::verif_hooks::encoder_new(reader, encoding)
+}
+
+/// Creates a YAML re-encoder that detects the source encoding.
+pub fn yaml_encoder_from_reader<'r, R: BufRead + 'r>(reader: R) -> io::Result<Box<dyn Read + 'r>> {
+	crate::yaml::verif_hooks::encoder_from_reader(reader)
+}
+
+/// Splits a UTF-8 YAML stream into documents: `(content, is_collection)`.
+pub fn yaml_chunks<'r, R: Read + 'r>(
+	reader: R,
+) -> Box<dyn Iterator<Item = io::Result<(String, bool)>> + 'r> {
+	crate::yaml::verif_hooks::chunks(reader)
+}
+
+/// Returns the YAML detection verdict for a slice or reader reference.
+pub fn yaml_input_matches_slice(input: &[u8]) -> io::Result<bool> {
+	crate::yaml::input_matches(Ref::Slice(input))
+}
+
+/// The error classes of the MessagePack value size calculator.
+#[derive(Clone, Copy, Debug, PartialEq, Eq)]
+pub enum SizeError {
+	Truncated,
+	InvalidMarker,
+	DepthLimitExceeded,
+}
+
+/// Computes the size of the MessagePack value at the start of `input`.
+pub fn msgpack_next_value_size(input: &[u8], depth_limit: usize) -> Result<usize, SizeError> {
+	crate::msgpack::verif_hooks::next_value_size(input, depth_limit)
+}
+
+/// The MessagePack nesting depth limit.
+pub fn msgpack_depth_limit() -> usize {
+	crate::msgpack::verif_hooks::depth_limit()
+}
+
+/// Mirror of the streaming transcoder's error type.
+#[derive(Debug)]
+pub enum TranscodeError<S, D> {
+	Ser(S, D),
+	De(D),
+}
+
+/// Runs the generic streaming transcoder.
+pub fn transcode<'de, S, D>(ser: S, de: D) -> Result<S::Ok, TranscodeError<S::Error, D::Error>>
+where
+	S: serde::Serializer,
+	D: serde::Deserializer<'de>,
+{
+	match crate::transcode::transcode(ser, de) {
+		Ok(v) => Ok(v),
+		Err(crate::transcode::Error::Ser(s, d)) => Err(TranscodeError::Ser(s, d)),
+		Err(crate::transcode::Error::De(d)) => Err(TranscodeError::De(d)),
+	}
+}
